@@ -159,6 +159,10 @@ let dispatch (fn : Stdlib.String.t) (args : v list) : v =
   | "htmldiff", [o; n; rules; ms] ->
       let (c, ((comb, ins), del)) = htmldiff (to_el o) (to_el n) (to_rules rules) (to_n ms) in
       L [of_nat c.change_count; of_nat c.deletions_count; of_nat c.insertions_count; of_str comb; of_str ins; of_str del]
+  | "url_eq", [rules; a; b] -> of_bool (url_eq (to_rules rules) (to_str a) (to_str b))
+  | "token_opcodes", [o; n; rules; ms] ->
+      let ops = token_opcodes (to_rules rules) (prepare (to_el o) (to_n ms)) (prepare (to_el n) (to_n ms)) in
+      of_list of_opcode ops
   | "prepare", [e; ms] -> of_list of_token (prepare (to_el e) (to_n ms))
   | "tokenize", [e] -> of_list of_token (x_render_tokenize (to_el e))
   | "merge_changes", [chunks; tt] -> of_list of_str (merge_changes (to_list to_str chunks) (to_str tt))
